@@ -181,8 +181,10 @@ def wf(v, depth=0):
         for i, et in enumerate(ty[1]):
             out += wf(SymVal(et, T.acc(ty, f'f{i}')(t)), depth + 1)
     elif k == 'rec':
+        # a record is a plain product: it does not count towards the nesting depth (only
+        # quantifier-introducing levels do), so Rec -> Dict -> Dict -> List still gets len >= 0
         for f, ft in T.RECORDS[ty[1]].items():
-            out += wf(SymVal(ft, T.acc(ty, f)(t)), depth + 1)
+            out += wf(SymVal(ft, T.acc(ty, f)(t)), depth)
     elif k == 'opt':
         inner = wf(SymVal(ty[1], T.acc(ty, 'val')(t)), depth + 1)
         if inner:
@@ -249,7 +251,10 @@ def seq_append_ax(state, v, x, hint='app'):
         # the receiver term is not a legal trigger (e.g. it contains an ite: xs[i].append(..)
         # with a possibly negative i): trigger on the new sequence only
         q = z3.ForAll([j], body, patterns=[seq_at(r, j)])
-    state.assume(seq_len(r) == n + 1, seq_at(r, n) == x, q)
+    # the array-theory form of the same fact (r is fresh, so fixing its junk beyond the range is
+    # consistent): lets the solver split on `j == n` by read-over-write instead of by triggers
+    at = T.acc(v.ty, 'at')
+    state.assume(seq_len(r) == n + 1, seq_at(r, n) == x, q, at(r.term) == z3.Store(at(v.term), n, x))
     return r
 
 
